@@ -160,14 +160,14 @@ def one(chk, repo, sp):
     if not creads:
         chk.violation("C13.timeout", close, "await reader.read()", "wait for the peer's CLOSE", f"{tag} close() does not wait for the peer's close frame")
     for a in creads:
-        scopes = [w for w in prog.enclosing(a, (ast.AsyncWith,)) if any(M.match(M.compile_pat("async_timeout.timeout($T)"), it.context_expr) is not None for it in w.items)]
+        scopes = [w for w in prog.enclosing(a, (ast.AsyncWith,)) if K.timeout_budget(w, close.node) is not None]
         loops = K.loop_ancestors(a)
         if not scopes:
             chk.violation("C13.timeout", a, K.short(a), "async_timeout.timeout(<close timeout>)", f"{tag} waiting for the peer's CLOSE has no timeout: close() can block forever")
             continue
         sc = scopes[-1]
         encl = all(any(x is sc for x in prog.enclosing(l, (ast.AsyncWith,))) for l in loops)
-        targ = norm.raw(sc.items[0].context_expr.args[0])
+        targ = K.timeout_budget(sc, close.node)
         if encl and targ == sp["timeout_attr"]:
             chk.ok("C13.timeout", a, f"{tag} close(): one `async_timeout.timeout({targ})` encloses the whole wait-for-CLOSE loop")
         elif not encl:
@@ -181,7 +181,7 @@ def one(chk, repo, sp):
         txt = norm.raw(a.value)
         if a in creads or "_close_wait" in txt:
             continue
-        scoped = any(any(M.match(M.compile_pat("async_timeout.timeout($T)"), it.context_expr) is not None for it in w.items) for w in prog.enclosing(a, (ast.AsyncWith,)))
+        scoped = any(K.timeout_budget(w, close.node) is not None for w in prog.enclosing(a, (ast.AsyncWith,)))
         blocking = ("drain(" in txt) or ("self._writer.close(" in txt)  # send_frame() waits in the drain helper once the output limit is reached
         if not blocking:
             continue
@@ -338,12 +338,23 @@ def hunt3(chk, repo, sp):
                 chk.violation("C13.wake", sub, K.short(sub), "if not self._closed: ...",
                               f"{tag} close() called while another task is parked in receive(): the woken receive() sets {sorted(_self_attrs_set(cls, [sub]) & shortcuts)}, close() then takes its `already closing` short cut - the transport is closed right after our CLOSE "
                               "without waiting for the peer's, and close_code reports 1000 for a handshake that never completed")
+    # ---- C13.timeout: the close budget is spent once: the phases of close() share one deadline ------------------------------------------------------
+    scopes = [w for w in ast.walk(close.node) if isinstance(w, ast.AsyncWith) and K.timeout_budget(w, close.node) == sp["timeout_attr"]]
+    if len(scopes) <= 1:
+        chk.ok("C13.timeout", scopes[0] if scopes else close, f"{tag} close(): one timeout scope spends the close budget")
+    else:
+        dl = {norm.raw(it.context_expr.args[0]) if norm.raw(it.context_expr.func).endswith("timeout_at") else None for w in scopes for it in w.items}
+        if len(dl) == 1 and None not in dl:
+            chk.ok("C13.timeout", scopes[0], f"{tag} close(): its {len(scopes)} phases run against one deadline `{next(iter(dl))}`")
+        else:
+            chk.violation("C13.timeout", scopes[1], K.short(scopes[1], 60), "deadline = loop.time() + <close timeout>; async with async_timeout.timeout_at(deadline) in every phase",
+                          f"{tag} close() gives each of its {len(scopes)} phases (sending the CLOSE, waiting for the peer's) a full close timeout of its own: a peer that stalls in both holds close() for {len(scopes)}x the configured timeout")
     # ---- C13.timeout: the automatic PONG is sent inside receive() and bounded like the read -----------------------------------------------------
     pongs = [a for a in prog.awaits_in(recv.node) if isinstance(a.value, ast.Call) and norm.raw(a.value.func) == "self.pong"]
     if not pongs:
         chk.analysis_error(f"C13.timeout: the auto-pong of {cn}.receive() was not found")
     for a in pongs:
-        scoped = [w for w in prog.enclosing(a, (ast.AsyncWith,)) if any(M.match(M.compile_pat("async_timeout.timeout($T)"), it.context_expr) is not None for it in w.items)]
+        scoped = [w for w in prog.enclosing(a, (ast.AsyncWith,)) if K.timeout_budget(w, recv.node) is not None]
         if scoped:
             chk.ok("C13.timeout", a, f"{tag} receive(): the automatic PONG is under `{norm.raw(scoped[-1].items[0].context_expr)}`")
         else:
